@@ -59,6 +59,27 @@ def json_reload(obj):
     return loader(json.loads(dumped)), dumped
 
 
+def maybe_edit(rng, case, obj, which, p=0.3, categorical=True):
+    """Applies 1..2 valid update_discretizer edits (as generated for C17) to a fitted Binary/Continuous carver.
+    Returns the list of (description, feature, kind) applied."""
+    done = []
+    if which != "carver" or case.kind == "multiclass" or not obj.features or rng.random() >= p:
+        return done
+    from .props import c17
+    for _ in range(int(rng.integers(1, 3))):
+        cands = [c for c in c17.candidate_edits(case, obj, rng) if categorical or not (c[5] in ("group_qual", "replace") and c[1] in case.qual)]
+        if not cands:
+            break
+        kinds = sorted({c[5] for c in cands})
+        kind = gen.pick(rng, kinds)
+        pool = [c for c in cands if c[5] == kind]
+        desc, f, mode, discarded, kept, kind = pool[int(rng.integers(len(pool)))]
+        _, e = common.guarded(obj.update_discretizer, f, mode, discarded, kept)
+        if e is None:
+            done.append((desc, f, kind))
+    return done
+
+
 def feature_kind(obj, f):
     return "quant" if f in obj.quantitative_features else "qual"
 
